@@ -1,5 +1,319 @@
+import PsiModel.DbField
 import Drivers.Common
-/-! Stub: replaced by the driver of the `Calib` model. -/
+/-!
+`psidriver calib`: executes the `Float` instance of `PsiModel/DbField.lean`
+(C07 calibration conversions, C16 spectrum/level helpers, C08 stimulus scaling).
+
+Floats cross the pipe as the decimal value of their IEEE-754 bit pattern (exact in both
+directions); the harness compares numerically with a transcription tolerance.
+
+Replies: `ok` | `num <bits>` | `vals <bits> …` | `nan` | `err CalibrationError` | `err ValueError` | `bad-op`.
+-/
 namespace Psi.Driver.Calib
-def main : IO Unit := pure ()
+open Psi.Driver Psi.Db
+
+structure St where
+  cal : Option (Cal Float) := none
+  sig : Array Float := #[]
+  win : Option (Array Float) := none
+  spec : Array (Cx Float) := #[]
+
+def pf? (s : String) : Option Float := s.toNat?.map fun n => Float.ofBits (UInt64.ofNat n)
+
+def pfs? (s : String) : Option (List Float) := (commaList s).mapM pf?
+
+def sf (x : Float) : String := toString x.toBits.toNat
+
+def showVals (l : List Float) : String :=
+  if l.isEmpty then "vals" else "vals " ++ " ".intercalate (l.map sf)
+
+def showRes : Res Float → String
+  | .val a => s!"num {sf a}"
+  | .nan => "nan"
+  | .calErr => "err CalibrationError"
+  | .valErr => "err ValueError"
+
+/-- a vectorised call: pointwise, NaN kept in place, the first raised exception wins -/
+def showResList (l : List (Res Float)) : String :=
+  if l.any (fun | .calErr => true | _ => false) then "err CalibrationError"
+  else if l.any (fun | .valErr => true | _ => false) then "err ValueError"
+  else showVals (l.map fun | .val a => a | _ => (0.0 / 0.0 : Float))
+
+/-- "f:s,f:s" → [(f,s)] -/
+def pairs? (s : String) : Option (List (Float × Float)) :=
+  (commaList s).mapM fun p =>
+    match p.splitOn ":" with
+    | [a, b] => do pure ((← pf? a), (← pf? b))
+    | _ => none
+
+def triples? (s : String) : Option (List (Float × Float × Float)) :=
+  (commaList s).mapM fun p =>
+    match p.splitOn ":" with
+    | [a, b, c] => do pure ((← pf? a), (← pf? b), (← pf? c))
+    | _ => none
+
+def arrFn (a : Array Float) : Nat → Float := fun j => a.getD j 0
+def arrFnC (a : Array (Cx Float)) : Nat → Cx Float := fun j => a.getD j ⟨0, 0⟩
+
+def cxVals (l : List (Cx Float)) : String := showVals (l.flatMap fun c => [c.re, c.im])
+
+/-- bins: "all:m" = 0..m-1, or a comma list -/
+def bins? (s : String) : Option (List Nat) :=
+  match s.splitOn ":" with
+  | ["all", m] => m.toNat?.map List.range
+  | _ => parseNats? s
+
+/-- a noise bound: literal bits, or `L:<sf>` / `H:<sf>` = `-sqrt(3)*sf` / `sqrt(3)*sf` computed by the model -/
+def bound? (s : String) : Option Float :=
+  match s.splitOn ":" with
+  | ["L", v] => (pf? v).map bbnLow
+  | ["H", v] => (pf? v).map bbnHigh
+  | _ => pf? s
+
+def setCal (st : St) (c : Cal Float) : St × String := ({ st with cal := some c }, "ok")
+
+def withCal (st : St) (f : Cal Float → String) : St × String :=
+  match st.cal with
+  | some c => (st, f c)
+  | none => (st, "bad-op")
+
+def opt (st : St) (o : Option String) : St × String := (st, o.getD "bad-op")
+
+def step (st : St) (ws : List String) : St × String :=
+  match ws with
+  -- ---------------- C07: calibrations ----------------
+  | ["cal", "flat", s, g] =>
+    match pf? s, pf? g with
+    | some s, some g => setCal st (.flat s g)
+    | _, _ => (st, "bad-op")
+  | ["cal", "interp", g, t] =>
+    match pf? g, pairs? t with
+    | some g, some t => setCal st (.interp t g)
+    | _, _ => (st, "bad-op")
+  | ["cal", "point", g, t] =>
+    match pf? g, pairs? t with
+    | some g, some t => setCal st (.point t g)
+    | _, _ => (st, "bad-op")
+  | ["cal", "from_spl", l, v, g] =>
+    match pf? l, pf? v, pf? g with
+    | some l, some v, some g => setCal st (Cal.fromSpl l v g)
+    | _, _, _ => (st, "bad-op")
+  | ["cal", "from_db", l, v, g] =>
+    match pf? l, pf? v, pf? g with
+    | some l, some v, some g => setCal st (Cal.fromDb l v g)
+    | _, _, _ => (st, "bad-op")
+  | ["cal", "from_pascals", m, v, g] =>
+    match pf? m, pf? v, pf? g with
+    | some m, some v, some g => setCal st (Cal.fromPascals m v g)
+    | _, _, _ => (st, "bad-op")
+  | ["cal", "from_mv_pa", m] =>
+    match pf? m with
+    | some m => setCal st (Cal.fromMvPa m)
+    | _ => (st, "bad-op")
+  | ["cal", "unity"] => setCal st Cal.unity
+  | ["cal", "as_attenuation", v] =>
+    match pf? v with
+    | some v => setCal st (Cal.asAttenuation v)
+    | _ => (st, "bad-op")
+  | ["cal", "interp_from_db", g, t] =>
+    match pf? g, triples? t with
+    | some g, some t => setCal st (.interp (tblFromDb t) g)
+    | _, _ => (st, "bad-op")
+  | ["cal", "interp_from_pascals", g, t] =>
+    match pf? g, triples? t with
+    | some g, some t => setCal st (.interp (tblFromPascals t) g)
+    | _, _ => (st, "bad-op")
+  | ["cal", "point_from_db", g, t] =>
+    match pf? g, triples? t with
+    | some g, some t => setCal st (.point (tblFromDb t) g)
+    | _, _ => (st, "bad-op")
+  | ["cal", "point_from_pascals", g, t] =>
+    match pf? g, triples? t with
+    | some g, some t => setCal st (.point (tblFromPascals t) g)
+    | _, _ => (st, "bad-op")
+  | ["set_fixed_gain", g] =>
+    match pf? g, st.cal with
+    | some g, some (.flat s _) => setCal st (.flat s g)
+    | some g, some (.interp t _) => setCal st (.interp t g)
+    | some g, some (.point t _) => setCal st (.point t g)
+    | _, _ => (st, "bad-op")
+  | ["sensitivity"] =>
+    withCal st fun
+      | .flat s _ => showVals [s]
+      | .interp t _ => showVals (t.map (·.2))
+      | .point t _ => showVals (t.map (·.2))
+  | ["sens", f] => withCal st fun c => (pf? f).elim "bad-op" fun f => showRes (getSens c f)
+  | ["sf", f, l, a] =>
+    withCal st fun c =>
+      match pf? f, pf? l, pf? a with
+      | some f, some l, some a => showRes (getSf c f l a)
+      | _, _, _ => "bad-op"
+  | ["db", f, v] =>
+    withCal st fun c =>
+      match pf? f, pf? v with
+      | some f, some v => showRes (getDb c f v)
+      | _, _ => "bad-op"
+  | ["att", f, v, l] =>
+    withCal st fun c =>
+      match pf? f, pf? v, pf? l with
+      | some f, some v, some l => showRes (getAttenuation c f v l)
+      | _, _, _ => "bad-op"
+  | ["gain", f, l, a] =>
+    withCal st fun c =>
+      match pf? f, pf? l, pf? a with
+      | some f, some l, some a => showRes (getGain c f l a)
+      | _, _, _ => "bad-op"
+  | ["meansf", flb, l, a, fr] =>
+    withCal st fun c =>
+      match pf? flb, pf? l, pf? a, pfs? fr with
+      | some flb, some l, some a, some fr => showRes (getMeanSf c flb fr l a)
+      | _, _, _, _ => "bad-op"
+  | ["sensv", fr] =>
+    withCal st fun c => (pfs? fr).elim "bad-op" fun fr => showResList (fr.map (getSens c))
+  | ["sfv", l, a, fr] =>
+    withCal st fun c =>
+      match pf? l, pf? a, pfs? fr with
+      | some l, some a, some fr => showResList (fr.map (getSf c · l a))
+      | _, _, _ => "bad-op"
+  | ["dbv", fv] =>
+    withCal st fun c => (pairs? fv).elim "bad-op" fun fv => showResList (fv.map fun (f, v) => getDb c f v)
+  | ["tomvpa"] =>
+    withCal st fun
+      | .flat s _ => showRes (.val (toMvPa s))
+      | _ => "bad-op"
+  -- ---------------- level helpers (C07/C16) ----------------
+  | ["dbf", x, r] =>
+    match pf? x, pf? r with
+    | some x, some r => (st, showRes (.val (db x r)))
+    | _, _ => (st, "bad-op")
+  | ["dbi", d, r] =>
+    match pf? d, pf? r with
+    | some d, some r => (st, showRes (.val (dbi d r)))
+    | _, _ => (st, "bad-op")
+  | ["dbtopa", d] => opt st ((pf? d).map fun d => showRes (.val (dbtopa d)))
+  | ["patodb", p] => opt st ((pf? p).map fun p => showRes (.val (patodb p)))
+  | ["s2b", l, n] =>
+    match pf? l, pf? n with
+    | some l, some n => (st, showRes (.val (spectrumToBand l n)))
+    | _, _ => (st, "bad-op")
+  | ["b2s", l, n] =>
+    match pf? l, pf? n with
+    | some l, some n => (st, showRes (.val (bandToSpectrum l n)))
+    | _, _ => (st, "bad-op")
+  -- ---------------- C16: spectra ----------------
+  | ["sig", l] =>
+    match pfs? l with
+    | some l => ({ st with sig := l.toArray }, "ok")
+    | none => (st, "bad-op")
+  | ["win", "none"] => ({ st with win := none }, "ok")
+  | ["win", l] =>
+    match pfs? l with
+    | some l => ({ st with win := some l.toArray }, "ok")
+    | none => (st, "bad-op")
+  | ["spec", l] =>
+    match pairs? l with
+    | some l => ({ st with spec := (l.map fun (a, b) => (⟨a, b⟩ : Cx Float)).toArray }, "ok")
+    | none => (st, "bad-op")
+  | ["csd", ks] =>
+    opt st <| (bins? ks).map fun ks =>
+      let n := st.sig.size
+      let s := arrFn st.sig
+      cxVals <| ks.map fun k =>
+        match st.win with
+        | none => csd n s k
+        | some w => csdW n (arrFn w) s k
+  | ["psd", avg, ks] =>
+    opt st <| do
+      let avg ← avg.toNat?
+      let ks ← bins? ks
+      if avg == 0 then none else
+      let N := (st.sig.size / avg) * avg
+      let s := arrFn st.sig
+      pure <| showVals <| ks.map fun k =>
+        match st.win with
+        | none => psd N avg s k
+        | some w => psdW N avg (arrFn w) s k
+  | ["phase", ks] =>
+    opt st <| (bins? ks).map fun ks =>
+      showVals <| ks.map fun k => phaseBin st.sig.size (arrFn st.sig) k
+  | ["tosig"] =>
+    if st.spec.size < 2 then (st, "bad-op") else
+    let m := st.spec.size - 1
+    (st, showVals <| (List.range (2 * m)).map fun j => csdToSignal m (arrFnC st.spec) j)
+  | ["toneconv", fs, f] =>
+    opt st <| do
+      let fs ← pf? fs
+      let f ← pf? f
+      let r := toneConv st.sig.size (arrFn st.sig) fs f
+      pure (cxVals [r])
+  | ["tonepower", fs, f] =>
+    opt st <| do
+      let fs ← pf? fs
+      let f ← pf? f
+      pure (showRes (.val (tonePower st.sig.size (arrFn st.sig) fs f)))
+  | ["tonephase", fs, f] =>
+    opt st <| do
+      let fs ← pf? fs
+      let f ← pf? f
+      pure (showRes (.val (tonePhase st.sig.size (arrFn st.sig) fs f)))
+  | ["rms"] => (st, showRes (.val (rms st.sig.size (arrFn st.sig))))
+  | ["rmsrfft"] => (st, showRes (.val (rmsRfft st.spec.size (arrFnC st.spec))))
+  | ["tonesig", n, k, a, p] =>
+    opt st <| do
+      let n ← n.toNat?
+      let k ← k.toNat?
+      let a ← pf? a
+      let p ← pf? p
+      pure (showVals ((List.range n).map (toneSig n k a p)))
+  -- ---------------- C08: stimuli ----------------
+  | ["tone", pol, sfv, fs, f, ph, off, n] =>
+    opt st <| do
+      let pol ← pf? pol
+      let sfv ← pf? sfv
+      let fs ← pf? fs
+      let f ← pf? f
+      let ph ← pf? ph
+      let off ← off.toNat?
+      let n ← n.toNat?
+      pure (showVals ((List.range n).map (tone pol sfv fs f ph off)))
+  | ["samtone", pol, sfl, sfc, sfu, eq, fs, fc, fm, phl, phc, phu, off, n] =>
+    opt st <| do
+      let pol ← pf? pol
+      let sfl ← pf? sfl
+      let sfc ← pf? sfc
+      let sfu ← pf? sfu
+      let eq ← pf? eq
+      let fs ← pf? fs
+      let fc ← pf? fc
+      let fm ← pf? fm
+      let phl ← pf? phl
+      let phc ← pf? phc
+      let phu ← pf? phu
+      let off ← off.toNat?
+      let n ← n.toNat?
+      pure (showVals ((List.range n).map (samTone pol sfl sfc sfu eq fs fc fm phl phc phu off)))
+  | ["sameqpower", d] => opt st ((pf? d).map fun d => showRes (.val (samEqPower d)))
+  | ["scaled", pol, sfv, proto] =>
+    opt st <| do
+      let pol ← pf? pol
+      let sfv ← pf? sfv
+      let proto ← pfs? proto
+      pure (showVals (scaled pol sfv proto))
+  | ["filt", polIn, polOut, low, high, b0, bt, atl, z0, discard, u] =>
+    opt st <| do
+      let polIn ← pf? polIn
+      let polOut ← pf? polOut
+      let low ← bound? low
+      let high ← bound? high
+      let b0 ← pf? b0
+      let bt ← pfs? bt
+      let atl ← pfs? atl
+      let z0 ← if z0 == "zero" then some (zeroState bt.length) else pfs? z0
+      let discard ← discard.toNat?
+      let u ← pfs? u
+      if bt.length != atl.length || z0.length != bt.length then none else
+      pure (showVals (filtStim polIn polOut low high b0 bt atl z0 discard u))
+  | _ => (st, "bad-op")
+
+def main : IO Unit := run ({} : St) step
 end Psi.Driver.Calib
